@@ -272,14 +272,11 @@ func buildTables(fs filterSpec, v fieldVal) string {
 	case "ipmask":
 		for _, s := range v.strings() {
 			for _, piece := range strings.Split(s, ",") {
+				// strings.TrimSpace and net.SplitHostPort are byte-level models on the Lean side: no rows
 				value := strings.TrimSpace(piece)
-				r.add("T," + core.Hex(piece) + "," + core.Hex(value))
-				host, port, err := net.SplitHostPort(value)
+				host, _, err := net.SplitHostPort(value)
 				if err != nil {
 					host = value
-					r.add("S," + core.Hex(value))
-				} else {
-					r.add("S," + core.Hex(value) + "," + core.Hex(host) + "," + core.Hex(port))
 				}
 				host, _, _ = strings.Cut(host, "%") // the zone is cut off before parsing
 				ip := net.ParseIP(host)
@@ -444,6 +441,13 @@ func runFlt(f []string) core.Outcome {
 		fmt.Fprintln(os.Stderr, "OBSERVED", strings.Join(f[:5], " "), buildTables(fs, v))
 	}
 	orig, _ := mkField(key, v)
+	// the same filter instance first sees another value: nothing of it may show up in the next result
+	decoyTok := "d0" + fmt.Sprintf("%030x", len(f[4])*7919+len(f[1]))
+	if dv, ok := decoyValue(v, decoyTok); ok {
+		if df, ok := mkField(key, dv); ok {
+			_ = filter.Filter(df)
+		}
+	}
 	out := filter.Filter(in)
 
 	// ---- canonical answer
@@ -474,8 +478,23 @@ func runFlt(f []string) core.Outcome {
 		emitted = encodeJSON(out)
 	}
 	fltOracle(&o, fs, v, out, outStrings, emitted)
+	if strings.Contains(emitted, decoyTok) {
+		o.Failures = append(o.Failures, core.Failure{Class: "filter-emits-previous-value",
+			What: "the filter's result contains a token of the value the same filter instance processed before: " + emitted})
+	}
 	caddyfileOracle(&o, fs)
 	return o
+}
+
+// decoyValue: a value of the same shape carrying another token.
+func decoyValue(v fieldVal, tok string) (fieldVal, bool) {
+	switch v.kind {
+	case "s":
+		return fieldVal{kind: "s", s: "sid=" + tok + "; token=" + tok + " 10.9.8.7 /p?token=" + tok}, true
+	case "a":
+		return fieldVal{kind: "a", a: []string{"sid=" + tok, "/p?token=" + tok + "&hq=" + tok, "10.9.8.7"}}, true
+	}
+	return v, false
 }
 
 func isLoggable(x any) bool { _, ok := x.(caddyhttp.LoggableStringArray); return ok }
